@@ -29,7 +29,14 @@ pub fn parse_params(s: &str) -> SerParams {
 }
 
 pub fn random_params(r: &mut Rng, pool: &Pool) -> SerParams {
-    let sub = |r: &mut Rng| -> Vec<usize> { let mut v = vec![]; for n in &pool.names { if r.chance(1, 6) { v.push(*n); } } v };
+    // a name list is given in any order (not the order the names were interned in) and may name an element twice
+    let sub = |r: &mut Rng| -> Vec<usize> {
+        let mut v = vec![];
+        for n in &pool.names { if r.chance(1, 6) { v.push(*n); } }
+        if !v.is_empty() && r.chance(1, 6) { let d = *r.pick(&v); v.push(d); }
+        for i in (1..v.len()).rev() { let j = r.below(i + 1); v.swap(i, j); }
+        v
+    };
     SerParams { cdata: if r.chance(1, 2) { sub(r) } else { vec![] }, unescaped_gt: r.chance(1, 2), suppress: if r.chance(1, 2) { sub(r) } else { vec![] } }
 }
 
